@@ -15,7 +15,7 @@ import (
 func init() {
 	reg("C37", Meta{
 		Technique:   "forward taint analysis on SSA from every protobuf ReadMsg target (inter-procedural inside the protocol packages, with a hand-written summary of the reflect dispatcher) to panicking operations, each discharged by a dominating guard (nil test, length/interval guard, checked error)",
-		Explanation: "C37 (malformed peer messages never crash), structural clause: in every package that reads peer messages (all ReadMsg/ReadMsgWithContext sites: handshake, hive, hive2, retrieval, chunkinfo, routetab, netrelay, pingpong, trafficprotocol, multicast, libp2p headers) no peer-controlled value reaches a panicking operation unguarded: (S1) a field is selected through a decoded sub-message pointer only behind a nil test of that pointer (generated GetX accessors are nil-safe); (S2) no Must* parser is applied to a peer-controlled string; (S3) peer-controlled bytes/strings are indexed or sliced at constant positions only within the length the interval analysis / a dominating len guard establishes, and never with a peer-controlled index without a bound check; (S4) a pointer returned by a constructor called with peer data whose error result is discarded is not dereferenced; (S5) a pointer filled by json.Unmarshal of peer bytes is not dereferenced or handed on without a nil test (JSON null); (S6) a peer-controlled integer is not used as make() size or divisor without a guard. Not decided: panics inside third-party decoders, resource exhaustion, flows that leave the protocol packages (reported at the hand-over point only for possibly-nil pointers).",
+		Explanation: "C37 (malformed peer messages never crash), structural clause: in every package that reads peer messages (all ReadMsg/ReadMsgWithContext sites: handshake, hive, hive2, retrieval, chunkinfo, routetab, netrelay, pingpong, trafficprotocol, multicast, libp2p headers) no peer-controlled value reaches a panicking operation unguarded: (S1) a field is selected through a decoded sub-message pointer only behind a nil test of that pointer (generated GetX accessors are nil-safe); (S2) no Must* parser is applied to a peer-controlled string; (S3) peer-controlled bytes/strings are indexed or sliced at constant positions only within the length the interval analysis / a dominating len guard establishes, and never with a peer-controlled index without a bound check; (S4) a pointer returned by a constructor called with peer data whose error result is discarded is not dereferenced; (S5) a pointer filled by json.Unmarshal of peer bytes is not dereferenced or handed on without a nil test (JSON null); (S6) a peer-controlled integer is not used as make() size or divisor without a guard; (S7) a peer-controlled integer used as a slice bound of any slice is proven >= 0 by the interval analysis (for unexported helpers with only direct calls, the parameter's interval is the join over every call site; re-loads of a local message field are identified with the guarded load by an available-loads analysis) and <= len by a dominating guard. Not decided: panics inside third-party decoders, resource exhaustion, flows that leave the protocol packages (reported at the hand-over point only for possibly-nil pointers).",
 		Assumptions: []string{"generated protobuf Get* accessors are nil-receiver safe", "protobuf/JSON decoders themselves do not panic", "message size is bounded by the stream reader"},
 	}, c37)
 }
@@ -76,6 +76,58 @@ func c37(r *core.Run) {
 			ias[f] = core.Intervals(f)
 		}
 		return ias[f]
+	}
+	// seededIA: interval analysis of fn with each integer parameter assumed to lie in the join
+	// of the argument intervals over every call site, when fn is an unexported function whose
+	// every use in its package is a direct call (so the call sites are all there are).
+	callSites := map[*ssa.Function][]*ssa.Call{}
+	escapes := map[*ssa.Function]bool{}
+	for _, f := range funcs {
+		core.EachInstr(f, func(_ *ssa.BasicBlock, _ int, in ssa.Instruction) {
+			var callee *ssa.Function
+			if c, ok := in.(*ssa.Call); ok {
+				if callee = c.Call.StaticCallee(); callee != nil {
+					callSites[callee] = append(callSites[callee], c)
+				}
+			}
+			for _, op := range in.Operands(nil) {
+				if g, ok := (*op).(*ssa.Function); ok {
+					if c := core.Common(in); c != nil && c.Value == ssa.Value(g) {
+						if _, plain := in.(*ssa.Call); plain {
+							continue
+						}
+					}
+					escapes[g] = true // go/defer, function value, closure binding
+				}
+			}
+		})
+	}
+	seeded := map[*ssa.Function]*core.IA{}
+	seededIA := func(fn *ssa.Function) *core.IA {
+		if ia := seeded[fn]; ia != nil {
+			return ia
+		}
+		var seeds map[ssa.Value]core.Itv
+		if fn.Object() != nil && !fn.Object().Exported() && fn.Parent() == nil && !escapes[fn] && len(callSites[fn]) > 0 && fn.Signature.Recv() == nil {
+			seeds = map[ssa.Value]core.Itv{}
+			for i, p := range fn.Params {
+				if !isIntegerType(p.Type()) {
+					continue
+				}
+				var j core.Itv
+				for k, c := range callSites[fn] {
+					a := iaOf(c.Parent()).ValueAt(c.Call.Args[i], c)
+					if k == 0 {
+						j = a
+					} else {
+						j = core.Itv{Lo: min(j.Lo, a.Lo), Hi: max(j.Hi, a.Hi)}
+					}
+				}
+				seeds[p] = j
+			}
+		}
+		seeded[fn] = core.IntervalsSeeded(fn, seeds)
+		return seeded[fn]
 	}
 	nonNilEdges := func(fn *ssa.Function, p ssa.Value) core.EdgeSet {
 		_, nn := core.AtomEdges(fn, func(base ssa.Value) (bool, bool) {
@@ -243,6 +295,27 @@ func c37(r *core.Run) {
 					}
 				}
 			case *ssa.Slice:
+				// S7: a peer-controlled integer used as a slice bound (of any slice) must be
+				// known non-negative and not above the length
+				for _, b := range []ssa.Value{x.Low, x.High} {
+					if b == nil || !t.Tainted(b) {
+						continue
+					}
+					if _, isConst := b.(*ssa.Const); isConst {
+						continue
+					}
+					desc := "peer-controlled bound " + core.Path(b) + " of slicing " + core.Path(x.X)
+					lo := seededIA(fn).ValueAt(b, x).Lo
+					okUp, why := sliceGuarded(fn, seededIA(fn), x)
+					switch {
+					case lo < 0:
+						sinks = append(sinks, finding{fn, in, "C37.S7", desc, fmt.Sprintf("the bound is not known to be >= 0 (lowest value over every call site and guard: %s): a negative value sent by the peer panics", fmtBound(lo))})
+					case !okUp && !t.Tainted(x.X):
+						sinks = append(sinks, finding{fn, in, "C37.S7", desc, why})
+					default:
+						oks = append(oks, finding{fn, in, "C37.S7", desc + " is within [0,len]", ""})
+					}
+				}
 				if !t.Tainted(x.X) {
 					return
 				}
